@@ -486,7 +486,9 @@ class DefTag(Tag):
 
     def undeclared_identifiers(self):
         res = []
-        for c in self.function_decl.defaults:
+        decl = self.function_decl
+        # keyword-only parameters without a default have None here
+        for c in decl.defaults + [d for d in decl.kwdefaults if d is not None]:
             res += list(
                 ast.PythonCode(
                     c, **self.exception_kwargs
